@@ -24,6 +24,7 @@ type c24Write struct {
 	seq       int64
 	err       error
 	returned  bool
+	want      []int // copy of objs taken before the write: what the queue must emit for it
 }
 
 type c24Scenario struct {
@@ -53,12 +54,23 @@ func c24Body(sc c24Scenario) vs.Body {
 		total := 0
 		for w, sizes := range sc.writers {
 			var mine []*c24Write
+			// a writer hands consecutive pieces of ONE slice to the queue, each piece its own Write (the
+			// pieces share a backing array and have spare capacity): the queue must not write into storage
+			// it was only given to read
+			nAll := 0
+			for _, n := range sizes {
+				nAll += n
+			}
+			backing := make([]int, 0, nAll)
 			for k, n := range sizes {
 				wr := &c24Write{writer: w, k: k}
 				idx := len(writes)
+				off := len(backing)
 				for p := 0; p < n; p++ {
-					wr.objs = append(wr.objs, idx*10+p)
+					backing = append(backing, idx*10+p)
 				}
+				wr.objs = backing[off : off+n]
+				wr.want = append([]int(nil), wr.objs...)
 				if sc.wantFC {
 					wr.fc = make(FlushChannel)
 				}
@@ -193,7 +205,7 @@ func c24Body(sc c24Scenario) vs.Body {
 			var exp []int
 			max := int64(-1 << 62)
 			for _, wr := range members {
-				exp = append(exp, wr.objs...)
+				exp = append(exp, wr.want...)
 				if wr.seq > max {
 					max = wr.seq
 				}
@@ -215,7 +227,10 @@ func c24Body(sc c24Scenario) vs.Body {
 			if wr.err != nil || !wr.returned {
 				vio("C24:write-failed", "write w%d.%d returned=%v err=%v", wr.writer, wr.k, wr.returned, wr.err)
 			}
-			for _, o := range wr.objs {
+			if fmt.Sprint(wr.objs) != fmt.Sprint(wr.want) {
+				vio("C24:producer-slice-modified", "write w%d.%d handed %v to the queue; its slice now reads %v", wr.writer, wr.k, wr.want, wr.objs)
+			}
+			for _, o := range wr.want {
 				if cnt[o] != 1 {
 					vio("C24:not-exactly-once", "object %d emitted %d times; stream %v", o, cnt[o], stream)
 				}
